@@ -619,4 +619,74 @@ theorem mtm_fit_merge (hT : legalThreshold T = true) : ∀ (d : Nat) (l rr : MTr
 
 end fits
 
+/-! ### THE TAIL -/
+
+section tail
+variable {r : Nat} {T : Nat} {D : DigestFn (r + 1)}
+
+theorem mtm_underflow_le : ∀ (d : Nat) (t : MTree r d) (u : Nat), MTree.isUnderflow T d t = some u → u ≤ minThr T
+  | 0, t, u, h => by
+    have h' : MDataSlab.isUnderflow T (t : MDataSlab r) = some u := h
+    simp only [MDataSlab.isUnderflow] at h'
+    split at h'
+    · have := Option.some.inj h'; omega
+    · cases h'
+  | d + 1, t, u, h => by
+    have h' : MMetaSlab.isUnderflow T (t : MMetaSlab (MTree r d)) = some u := h
+    simp only [MMetaSlab.isUnderflow] at h'
+    split at h'
+    · have := Option.some.inj h'; omega
+    · cases h'
+
+/-- **the MERGE-OR-REBALANCE tail for `rs := rsOf T`, `Q := MQ T D`** - the body of `MMorTail T (rsOf T) (MQ T D)`
+    (same quantifiers, same conclusion) with ONE extra premise about the model value `m1`: the receiver's header size
+    covers one child header, `hsz` (FORCED: Go's `m.header.size -= mapSlabHeaderSize` wraps around in `uint32`, the
+    model's truncated subtraction gives 0; `mds_Pre` constrains only the CHILDREN of `m1`, so `MMorTail` itself is not
+    provable for `rsOf T`).  Everything else - the neighbours read from the heap, the `uint` ranges, the hypotheses of
+    the slab-level theorems, the heap afterwards (`mds_Post`) - is discharged from `mds_Pre (MQ T D)`. -/
+theorem MMorTail_rsOf_partial (hT : legalThreshold T = true) :
+    ∀ (addr d : Nat) (m1 : MMetaSlab (MTree r d)) (x : Option DX) (child' : MTree r d) (k u : Nat) (s1 : MHSt r),
+      mds_Pre (MQ T D) addr s1 d m1 → Gen.mapSlabHeaderSize ≤ m1.hdr.size →
+      m1.children[k]? = some child' → MTree.isFull T d child' = false →
+      MTree.isUnderflow T d child' = some u →
+      match m1.mergeOrRebalanceChildSlab T child' k u s1.ctx with
+      | .ok (m', c') =>
+        ∃ s' w, (rsOf T).mergeOrRebalance (md_meta m1 x) s1 (md_tree d child' none) (Int.ofNat k) (u32 u) =
+            (none, md_meta m' x, s', w) ∧
+          s'.ctx = c' ∧ s'.popped = s1.popped ∧ mds_Post addr s1 s' (d + 1) m1 m' x
+      | .error e =>
+        ∃ a s' w, (rsOf T).mergeOrRebalance (md_meta m1 x) s1 (md_tree d child' none) (Int.ofNat k) (u32 u) =
+          (some e, a, s', w) := by
+  intro addr d m1 x child' k u s1 hp hsz hck _ hun
+  have hcw : ∀ (j : Nat) (t : MTree r d), m1.children[j]? = some t → mtm_CW T d t :=
+    fun j t ht => mtm_CW_of_MQ hT d t (hp.inv t (List.mem_of_getElem? ht))
+  have hc := hcw k child' hck
+  have hu : u < 2^32 := by
+    have := mtm_underflow_le d child' u hun
+    have := (thresholds_fit hT).2.1
+    omega
+  refine mtm_call T addr d m1 x child' k u s1 hp hck hsz
+    ⟨hu, fun i t _ ht => mtm_CW_fit d t (hcw i t ht),
+      fun t _ ht => mtm_fit_rebalanced hT d t child' false (hcw _ t ht) hc,
+      fun t ht => mtm_fit_rebalanced hT d child' t true hc (hcw _ t ht),
+      fun t _ ht => mtm_fit_merge hT d t child' (hcw _ t ht) hc,
+      fun t ht => mtm_fit_merge hT d child' t hc (hcw _ t ht)⟩
+    (mtm_CW_fit d child' hc)
+    (fun i t _ ht => mtm_CW_size hT d t (hcw i t ht))
+    (fun t _ ht hcan => mtm_LendOK hT d t child' u (hcw _ t ht) hc hcan hun)
+    (fun t ht hcan => mtm_BorrowOK hT d child' t u hc (hcw _ t ht) hcan hun)
+    (fun t _ ht => mtm_MergeOK hT d t child' (hcw _ t ht) hc)
+    (fun t ht => mtm_MergeOK hT d child' t hc (hcw _ t ht))
+
+/-- `MMorTail` itself for any invariant that ALSO bounds the receiver: if every `m1` satisfying `mds_Pre (MQ T D)` at a
+    call has `mapSlabHeaderSize ≤ m1.hdr.size` (hypothesis `hrecv`, about model values), the tail holds as stated -/
+theorem MMorTail_rsOf_of_recv (hT : legalThreshold T = true)
+    (hrecv : ∀ (addr d : Nat) (m1 : MMetaSlab (MTree r d)) (s1 : MHSt r), mds_Pre (MQ T D) addr s1 d m1 →
+      Gen.mapSlabHeaderSize ≤ m1.hdr.size) :
+    MMorTail T (rsOf T) (MQ T D) :=
+  fun addr d m1 x child' k u s1 hp hck hnf hun =>
+    MMorTail_rsOf_partial hT addr d m1 x child' k u s1 hp (hrecv addr d m1 s1 hp) hck hnf hun
+
+end tail
+
 end Atree.TransEq
